@@ -195,6 +195,10 @@ pub fn subterms(t: &Sx, out: &mut Vec<Sx>) {
 }
 
 /// a history: terms (with subterms and renamed copies) + adds + unions, by motif
+/// rewriting streams switch the five-slot symmetry motif off: with a class of 120 symmetries used twice by a parent, every
+/// insertion enumerates 120 x 120 variants (proven_proven_pre_shape) - finite, but minutes per case
+pub static BIG_SYMMETRY: std::sync::atomic::AtomicBool = std::sync::atomic::AtomicBool::new(true);
+
 pub fn gen_history(rng: &mut Rng, justified: bool) -> (Vec<Sx>, Vec<Sx>, String) {
     let pool: Vec<u64> = (1..=rng.range(2, 4)).collect();
     let mut terms: Vec<Sx> = vec![];
@@ -295,6 +299,29 @@ pub fn gen_history(rng: &mut Rng, justified: bool) -> (Vec<Sx>, Vec<Sx>, String)
                 let hq = add(q.clone(), &mut terms, &mut ops, &mut nadd);
                 union(hq, h1, &mut ops, &mut jn);
             }
+            "symmetry"
+        }
+        4 if BIG_SYMMETRY.load(std::sync::atomic::Ordering::Relaxed) => { // a symmetry group on five slots grown in two steps (a double transposition, then a second generator):
+               // which layer of the stabiliser chain absorbs the second one depends on the ORDER of the slot names
+            let base: Vec<u64> = vec![1, 2, 3, 4, 5];
+            let mk = |p: &Vec<u64>| -> Sx {
+                rt(7, vec![null_app(), null_app()], vec![rt(2, p[..4].iter().map(|s| slot_arg(*s)).collect(), vec![]), rt(5, vec![slot_arg(p[4])], vec![])])
+            };
+            let mut idx: Vec<usize> = (0..5).collect(); rng.shuffle(&mut idx);
+            let mut p1 = base.clone(); p1.swap(idx[0], idx[1]); p1.swap(idx[2], idx[3]);
+            let mut p2 = base.clone();
+            match rng.below(3) { 0 => { p2.swap(idx[2], idx[4]); } 1 => { p2.swap(idx[3], idx[4]); } _ => { rng.shuffle(&mut p2); if p2 == base { p2.swap(0, 4); } } }
+            let h0 = add(mk(&base), &mut terms, &mut ops, &mut nadd);
+            let h1 = add(mk(&p1), &mut terms, &mut ops, &mut nadd);
+            union(h0, h1, &mut ops, &mut jn);
+            let h2 = add(mk(&p2), &mut terms, &mut ops, &mut nadd);
+            union(h0, h2, &mut ops, &mut jn);
+            // a parent and a few probes (arrangements of the same five slots)
+            add(rt(6, vec![null_app()], vec![mk(&base)]), &mut terms, &mut ops, &mut nadd);
+            for _ in 0..rng.range(4, 8) { let mut q = base.clone(); rng.shuffle(&mut q); add(mk(&q), &mut terms, &mut ops, &mut nadd); }
+            let mut q = p1.clone(); { let t = q.clone(); for i in 0..5 { q[i] = p2[(t[i] - 1) as usize]; } }
+            add(mk(&q), &mut terms, &mut ops, &mut nadd);
+            add(rt(6, vec![null_app()], vec![mk(&q)]), &mut terms, &mut ops, &mut nadd);
             "symmetry"
         }
         _ => "random",
